@@ -16,6 +16,8 @@ Rets == {"none",          \* no return type
          "std_result",    \* -> std::result::Result<u32, CorpErr>
          "path_result",   \* -> crate::support::Result<u32>      (any path whose last segment is `Result`)
          "alias",         \* -> Outcome   where  type Outcome = Result<u32, CorpErr>   (not recognisable syntactically)
+         "bare_result",   \* -> self::bare::Result   where  type Result = Result<u32, CorpErr>  (last segment `Result`, no arguments:
+                          \*                           the std::fmt::Result / io::Result style)
          "option",        \* -> Option<u32>
          "opt_result",    \* -> Option<Result<u32, CorpErr>>      (a Result nested in something else is not a Result)
          "tuple_result"}  \* -> (Result<u32, CorpErr>, u32)
@@ -38,8 +40,8 @@ Prevs == {"none", "plain", "no_log", "result"}
 
 Rows == [ret : Rets, attr : Attrs, shape : Shapes, msg : MsgGens, extra : Extras, prev : Prevs]
 
-ResultSyntax(r) == r.ret \in {"result", "std_result", "path_result"}
-CanErr(r)       == r.ret \in {"result", "std_result", "path_result", "alias"}
+ResultSyntax(r) == r.ret \in {"result", "std_result", "path_result", "bare_result"}
+CanErr(r)       == r.ret \in {"result", "std_result", "path_result", "alias", "bare_result"}
 
 Compiles(r) ==
   /\ r.attr \notin {"both", "unknown"}
